@@ -1,6 +1,9 @@
 import Esp.Model.Reconnect
 import Esp.Lemmas.ReconnectLock
 import Esp.Lemmas.ReconnectStop
+import Esp.Lemmas.ReconnectTries
+import Esp.Lemmas.ReconnectCli
+import Esp.Gen.Consts
 /-!
 # C18 — reconnect manager: one attempt at a time, specified backoff, clean stop
 -/
@@ -53,6 +56,31 @@ theorem backoff_le (n : Nat) : backoff n ≤ 60 := by rw [c18_backoff]; omega
 /-- authentication / encryption errors: the count jumps to 100, i.e. the maximum delay -/
 theorem c18_backoff_auth : backoff maxTries = 60 := by decide
 
+/-- the model's constants are the library's (translator-generated on every run from `reconnect_logic.py`: the two
+module constants, and the numeric literals / operators of the backoff expression by `ast`) -/
+theorem c18_consts :
+    Gen.expectedDisconnectCooldown = (((cooldown : Nat) : Int), 1) ∧ Gen.maximumBackoffTries = (((maxTries : Nat) : Int), 1) ∧
+    Gen.backoffLiterals = [(10, 1), (1, 1), (60, 1), (8106479329266893, 4503599627370496)] ∧
+    Gen.backoffOps = ["Pow", "int", "min", "round"] := by decide
+
+/-- the base the code uses is the binary64 number nearest to 1.8, not 9/5: its powers up to the exponent cap stay within
+a relative 2⁻⁴⁸ of those of 9/5 … -/
+theorem c18_float_base (t : Nat) (ht : t ≤ 10) :
+    9 ^ t * 4503599627370496 ^ t * (2 ^ 48 - 1) ≤ 5 ^ t * 8106479329266893 ^ t * 2 ^ 48 ∧
+    5 ^ t * 8106479329266893 ^ t * 2 ^ 48 ≤ 9 ^ t * 4503599627370496 ^ t * (2 ^ 48 + 1) := by
+  have : t = 0 ∨ t = 1 ∨ t = 2 ∨ t = 3 ∨ t = 4 ∨ t = 5 ∨ t = 6 ∨ t = 7 ∨ t = 8 ∨ t = 9 ∨ t = 10 := by omega
+  rcases this with rfl | rfl | rfl | rfl | rfl | rfl | rfl | rfl | rfl | rfl | rfl <;> decide +kernel
+
+/-- … and ANY value within a relative 2⁻⁴⁰ of `(9/5)^t` (so: whatever the last-bit behaviour of the C library's `pow`)
+gives the same delay: `x = p/q` with `|x − (9/5)^t| ≤ (9/5)^t · 2⁻⁴⁰` lies strictly between `k − ½` and `k + ½` for
+`k = backoff t < 60`, and is `≥ 60` when `backoff t = 60`; no tie-breaking rule is ever consulted. -/
+theorem c18_float_margin (t : Nat) (ht : t ≤ 10) :
+    (backoff t < 60 → (2 * backoff t - 1) * 5 ^ t * 2 ^ 40 < 2 * 9 ^ t * (2 ^ 40 - 1) ∧
+                       2 * 9 ^ t * (2 ^ 40 + 1) < (2 * backoff t + 1) * 5 ^ t * 2 ^ 40) ∧
+    (backoff t = 60 → 60 * 5 ^ t * 2 ^ 40 ≤ 9 ^ t * (2 ^ 40 - 1)) := by
+  have : t = 0 ∨ t = 1 ∨ t = 2 ∨ t = 3 ∨ t = 4 ∨ t = 5 ∨ t = 6 ∨ t = 7 ∨ t = 8 ∨ t = 9 ∨ t = 10 := by omega
+  rcases this with rfl | rfl | rfl | rfl | rfl | rfl | rfl | rfl | rfl | rfl | rfl <;> decide +kernel
+
 /-! ## one attempt at a time -/
 
 /-- **C18 (one attempt).**  In every state reachable by ANY sequence of events — start/stop calls, attempt
@@ -94,6 +122,31 @@ theorem c18_one_attempt_count (named : Bool) (evs : List Ev) :
       have := h i.val j.val a b h1 h2 ha hb
       have hlt : i < j := hinc
       omega
+
+/-- **C18 (no attempt during a session).**  In every reachable state a task suspended in `start_connection` means the
+client is starting, one suspended in `finish_connection` means it is finishing; so while a session is live nothing is
+in flight. -/
+theorem c18_no_attempt_while_live (named : Bool) (evs : List Ev) (h : (run (init named) evs).cli = .live) :
+    NoInflight (run (init named) evs) := by
+  intro i t ht
+  have := run_cli (init named) evs (init_inv named) (init_cli named) i t ht
+  cases hp : t.pc <;> simp [inflightPc]
+  · have := this.1 hp; rw [h] at this; cases this
+  · have := this.2 hp; rw [h] at this; cases this
+
+/-! ## the counter is the number of consecutive failures -/
+
+/-- **C18 (n = consecutive failures).**  In every reachable state the failure counter equals what the history says:
+`consec` scans the callbacks — an authentication / encryption `on_connect_error` sets 100, any other adds one,
+`on_connect` and the reset by `start()` clear it.  With `c18_retry_delay` and `c18_backoff`: after the n-th
+consecutive failed attempt the retry is armed `min(round(1.8^n), 60)` seconds ahead, 60 s after auth errors. -/
+theorem c18_tries_consecutive (named : Bool) (evs : List Ev) :
+    (run (init named) evs).tries = consec (run (init named) evs).log :=
+  tries_eq_consec named evs
+
+example : consec [.attempt, .onConnectError .other, .arm 2, .attempt, .onConnectError .other, .arm 3] = 2 ∧
+    consec [.onConnectError .other, .onConnect, .onDisconnect false, .attempt, .onConnectError .other] = 1 ∧
+    consec [.onConnectError .other, .onConnectError .auth] = 100 := by decide
 
 /-! ## clean stop -/
 
